@@ -112,24 +112,30 @@ structure RuleArg where
 /-- decimal value of a digit string -/
 def digitsVal (ds : Bytes) : Nat := ds.foldl (fun n c => n * 10 + (c.toNat - 48)) 0
 
+def chainKw : Bytes := b!"-chain"
+def raExt : Bytes := b!".ra"
+
+/-- `(?:-chain(\d+))?` on the text after the six digits: (offset digits, remaining text) -/
+def splitChain (rest : Bytes) : Option Bytes × Bytes :=
+  match stripPrefix? chainKw rest with
+  | some r => if (r.takeWhile isDigit).isEmpty then (none, rest) else (some (r.takeWhile isDigit), r.dropWhile isDigit)
+  | none => (none, rest)
+
+/-- the whole argument, with `.ra` appended unless it already ends in it -/
+def fileNameFor (arg : Bytes) : Bytes := if hasSuffix raExt arg then arg else arg ++ raExt
+
 /-- `^(\d{6})(?:-chain(\d+))?(?:\.ra)?$` then `strconv.ParseUint(offset, 10, 8)` -/
 def parseRuleId (arg : Bytes) : Except Fault RuleArg :=
-  let id := arg.take 6
-  let rest := arg.drop 6
-  if !(id.length == 6 && id.all isDigit) then .error .diag
+  if !((arg.take 6).length == 6 && (arg.take 6).all isDigit) then .error .diag
   else
-    let (offs, rest') :=
-      match stripPrefix? b!"-chain" rest with
-      | some r => let ds := r.takeWhile isDigit; if ds.isEmpty then (none, rest) else (some ds, r.dropWhile isDigit)
-      | none => (none, rest)
-    let okEnd := rest'.isEmpty || rest' == b!".ra"
-    if !okEnd then .error .diag
-    else
-      let stem := arg.take (arg.length - rest'.length)
-      match offs with
-      | none => .ok ⟨id, stem ++ b!".ra", 0⟩
-      | some ds =>
-        if digitsVal ds > 255 then .error .diag
-        else .ok ⟨id, stem ++ b!".ra", digitsVal ds⟩
+    match splitChain (arg.drop 6) with
+    | (offs, rest') =>
+      if !(rest'.isEmpty || rest' == raExt) then .error .diag
+      else
+        match offs with
+        | none => .ok ⟨arg.take 6, fileNameFor arg, 0⟩
+        | some ds =>
+          if digitsVal ds > 255 then .error .diag
+          else .ok ⟨arg.take 6, fileNameFor arg, digitsVal ds⟩
 
 end Crs.Update
